@@ -17,9 +17,7 @@ set_option Elab.async false
 namespace KlogV.Regexes
 open KlogV.Rx
 
-theorem recordSummaryLine : Tie Gen.rx_klog_recordSummaryLinePattern Gen.rx_klog_recordSummaryLinePattern_anchors Gen.rx_klog_recordSummaryLinePattern_unsupported Expect.recordSummaryLineStart true false := by
-  decide +kernel
-theorem entrySummaryLine : Tie Gen.rx_klog_entrySummaryLinePattern Gen.rx_klog_entrySummaryLinePattern_anchors Gen.rx_klog_entrySummaryLinePattern_unsupported Expect.blankLine true true := by
-  decide +kernel
+theorem recordSummaryLine : tied Gen.allRegexes Expect.recordSummaryLineStart true false = true := by decide +kernel
+theorem entrySummaryLine : tied Gen.allRegexes Expect.blankLine true true = true := by decide +kernel
 
 end KlogV.Regexes
